@@ -1,7 +1,10 @@
 (** Proofs about Kernels/SedimentTrapping.v (StorageParticulateTrapping) over the
-    reals (C12).  The model divides by the working volume without any guard, so
-    every statement carries the hypothesis that the working volume is positive;
-    what happens in binary64 when it is zero is in KernelProofs/C12Float.v. *)
+    reals (C12).  The division by the working volume is guarded ([> 0]); when the
+    reservoir is empty and releases nothing (working volume 0) the mass is kept.
+    Hypotheses that remain: non-negative inputs, step length and initial store --
+    they are needed because the model clamps the new store with math.Max(.,0),
+    which would create mass from a negative store, and because a negative working
+    volume has no meaning. *)
 From Coq Require Import ZArith Reals Lra List.
 From OW Require Import Base.Arith Base.RInst Base.Mealy KernelProofs.Budget
   Kernels.C12Common Kernels.SedimentTrapping.
@@ -30,10 +33,10 @@ Proof.
 Qed.
 
 Definition trap_in_ok (p : trap_paramsR) (x : trap_inR) : Prop :=
-  0 <= ti_inflowLoad x /\ 0 <= ti_outflow x /\ 0 <= ti_storage x /\
-  0 < trap_working_vol p x.
+  0 <= ti_inflowLoad x /\ 0 <= ti_outflow x /\ 0 <= ti_storage x.
 
-(** per-step balance and non-negativity, for non-negative inputs and a positive working volume *)
+(** per-step balance and non-negativity, for non-negative inputs: BOTH branches,
+    working volume > 0 (released by concentration) and = 0 (nothing released, mass kept) *)
 Lemma trap_step_ok (p : trap_paramsR) s x :
   0 <= tp_deltaT p -> 0 <= s -> trap_in_ok p x ->
   (0 <= fst (Rtrap_step p s x) /\
@@ -41,8 +44,8 @@ Lemma trap_step_ok (p : trap_paramsR) s x :
    0 <= to_trappedMass (snd (Rtrap_step p s x)) <= trap_inflow p x) /\
   s + trap_inflow p x = fst (Rtrap_step p s x) + trap_outflow p x (snd (Rtrap_step p s x)).
 Proof.
-  intros Hdt Hs (H1 & H2 & H3 & H4).
-  unfold trap_step, trap_inflow, trap_outflow, trap_working_vol in *. runfold. cbn.
+  intros Hdt Hs (H1 & H2 & H3).
+  unfold trap_step, trap_inflow, trap_outflow in *. runfold.
   pose proof (damTrappingPC_range p (ti_inflow x)) as Hpc.
   set (pc := @damTrappingPC R RArith p (ti_inflow x)) in *.
   set (dt := tp_deltaT p) in *.
@@ -57,13 +60,35 @@ Proof.
   set (s1 := s + inc - tr).
   assert (Hs1 : 0 <= s1) by (unfold s1; lra).
   set (wv := ti_outflow x * dt + ti_storage x) in *.
-  assert (Hc : 0 <= s1 / wv) by (apply Rmult_le_pos; [assumption | left; apply Rinv_0_lt_compat; assumption]).
-  assert (Hrest : s1 - ti_outflow x * (s1 / wv) * dt = s1 / wv * ti_storage x).
-  { unfold wv. field. fold wv. lra. }
-  assert (Hrest0 : 0 <= s1 / wv * ti_storage x) by (apply Rmult_le_pos; assumption).
-  rewrite Hrest. rewrite Rmax_left by assumption.
-  split; [repeat split; try lra; apply Rmult_le_pos; assumption|].
-  unfold s1 in *. lra.
+  rcase_bool (Rltb 0 wv); cbn.
+  - assert (Hcc : 0 <= s1 / wv) by (apply Rmult_le_pos; [assumption | left; apply Rinv_0_lt_compat; assumption]).
+    assert (Hrest : s1 - ti_outflow x * (s1 / wv) * dt = s1 / wv * ti_storage x).
+    { unfold wv. field. fold wv. lra. }
+    assert (Hrest0 : 0 <= s1 / wv * ti_storage x) by (apply Rmult_le_pos; assumption).
+    rewrite Hrest. rewrite Rmax_left by assumption.
+    split; [repeat split; try lra; apply Rmult_le_pos; assumption|].
+    unfold s1 in *. lra.
+  - replace (s1 - 0 * dt) with s1 by lra. rewrite Rmax_left by assumption.
+    split; [repeat split; lra|]. unfold s1. lra.
+Qed.
+
+(** the zero-volume branch explicitly: nothing is released and the (untrapped) mass stays *)
+Lemma trap_step_empty_reservoir (p : trap_paramsR) s x :
+  0 <= s -> 0 <= ti_inflowLoad x -> 0 <= tp_deltaT p -> trap_working_vol p x <= 0 ->
+  to_outflowLoad (snd (Rtrap_step p s x)) = 0 /\
+  fst (Rtrap_step p s x) = s + trap_inflow p x - to_trappedMass (snd (Rtrap_step p s x)).
+Proof.
+  intros Hs Hi Hdt Hw. unfold trap_step, trap_working_vol, trap_inflow in *. runfold.
+  pose proof (damTrappingPC_range p (ti_inflow x)) as Hpc.
+  set (pc := @damTrappingPC R RArith p (ti_inflow x)) in *.
+  assert (E : Rltb 0 (ti_outflow x * tp_deltaT p + ti_storage x) = false) by (apply Rltb_false; lra).
+  rewrite E. cbn. split; [reflexivity|].
+  set (inc := ti_inflowLoad x * tp_deltaT p).
+  assert (Hinc : 0 <= inc) by (apply Rmult_le_pos; assumption).
+  assert (inc * pc / 100 <= inc).
+  { replace inc with (inc * 100 / 100) at 2 by field.
+    apply Rmult_le_compat_r; [lra|]. apply Rmult_le_compat_l; lra. }
+  rewrite Rmax_left; lra.
 Qed.
 
 Theorem trap_run_budget (p : trap_paramsR) : 0 <= tp_deltaT p -> forall xs s,
@@ -107,7 +132,24 @@ Proof.
   unfold trap_step, damTrappingPC. runfold. cbn.
   assert (E1 : Rltb 0 1 = true) by (apply Rltb_true; lra).
   assert (E2 : Rltb 0 0 = false) by (apply Rltb_false; lra). rewrite E1, E2. cbn.
+  assert (E3 : Rltb 0 (1 * 1 + 1) = true) by (apply Rltb_true; lra). rewrite E3.
   replace (3 + 1 * 1 - 1 * 1 * 0 / 100) with 4 by field.
   replace (4 - 1 * (4 / (1 * 1 + 1)) * 1) with 2 by field.
   rewrite Rmax_left by lra. f_equal. f_equal; field.
 Qed.
+
+(** the former NaN witness over the reals: empty reservoir, no outflow: 10 kg + 1 kg/s * 86400 s stay *)
+Example trap_empty_example :
+  Rtrap_step (mk_trap_params 86400 1000000 0 112 800 1 (1/2)) 10 (mk_trap_in 1 1 0 0) =
+  (86410, {| to_trappedMass := 0; to_outflowLoad := 0 |}).
+Proof.
+  unfold trap_step, damTrappingPC. runfold. cbn.
+  assert (E1 : Rltb 0 1 = true) by (apply Rltb_true; lra).
+  assert (E2 : Rltb 0 0 = false) by (apply Rltb_false; lra). rewrite E1, E2. cbn.
+  assert (E3 : Rltb 0 (0 * 86400 + 0) = false) by (apply Rltb_false; lra). rewrite E3.
+  rewrite Rmax_left by lra. f_equal; [lra | f_equal; lra].
+Qed.
+
+Lemma trap_in_ok_iff (p : trap_paramsR) x :
+  trap_in_ok p x <-> (0 <= ti_inflowLoad x /\ 0 <= ti_outflow x /\ 0 <= ti_storage x).
+Proof. reflexivity. Qed.
